@@ -70,6 +70,42 @@ func HarnessC10Run() {
 	vrt.Observe("handled", handled)
 }
 
+// HarnessC10PluginHandler: the router has no handler when Run is called; a RouterPlugin registers the only one.
+// The same life cycle must hold: Running() after the subscription, and when that handler ends (Stop) or the Run
+// context is cancelled the router closes itself and Run returns nil.
+func HarnessC10PluginHandler() {
+	r, _ := NewRouter(RouterConfig{}, watermill.NopLogger{})
+	sub := &countingSubscriber{}
+	handled := 0
+	var h *Handler
+	r.AddPlugin(func(r *Router) error {
+		h = r.AddNoPublisherHandler("A", "ta", sub, func(m *Message) error { handled++; return nil })
+		return nil
+	})
+	runDone := make(chan error, 1)
+	cancelRun := vrt.Bool("end.by.cancel")
+	ctx, cancel := context.WithCancel(context.Background())
+	defer cancel()
+	go func() {
+		vrt.MustFinish()
+		runDone <- r.Run(ctx)
+	}()
+	<-r.Running()
+	vrt.Assert(sub.subscribes == 1, "Running() is closed only after every registered handler holds its subscription")
+	m := NewMessage("m", nil)
+	sub.chans[0] <- m
+	<-m.Acked()
+	if cancelRun {
+		cancel()
+	} else {
+		h.Stop()
+	}
+	err := <-runDone
+	vrt.Assert(err == nil, "when the last handler ends or the Run context is cancelled the router closes itself and Run returns nil")
+	vrt.Assert(r.IsClosed(), "the router closed itself")
+	vrt.Observe("handled", handled)
+}
+
 // HarnessC10StopOne: Stop ends that handler only; a handler with a different publisher keeps processing.
 func HarnessC10StopOne() {
 	r, _ := NewRouter(RouterConfig{}, watermill.NopLogger{})
